@@ -42,6 +42,9 @@ def build_config(cfg, transforms):
     if f == "sortobj":
         c["objectives"]["realization_filters"] = [0, -1]
         c["nonlinear_constraints"]["realization_filters"] = [-1]
+    elif f == "sortobjcon":      # the first objective and the constraint share the sort filter, the second objective is unfiltered:
+        c["objectives"]["realization_filters"] = [0, -1]       # a realization outside the window is active for ONE function only
+        c["nonlinear_constraints"]["realization_filters"] = [0]
     elif f == "cvarobj":
         c["objectives"]["realization_filters"] = [1, 1]
         c["nonlinear_constraints"]["realization_filters"] = [-1]
@@ -305,7 +308,7 @@ def extra_scenarios(tier, seed):
             rw[0] = 1
         calls = [kinds[int(i)] for i in rng.integers(0, len(kinds), int(rng.integers(1, 4)))]
         out.append({"cfg": {"R": R, "P": int(rng.integers(1, 4)), "rw": rw,
-                            "filt": ["none", "sortobj", "cvarobj", "cononly", "conmixed"][int(rng.integers(5))],
+                            "filt": ["none", "sortobj", "sortobjcon", "cvarobj", "cononly", "conmixed"][int(rng.integers(6))],
                             "tf": bool(rng.integers(2)), "memo": ["fresh", "arrays", "object", "roviews"][int(rng.integers(4))]},
                     "calls": calls, "nanreal": int(rng.integers(0, R + 1))})
     return out
@@ -315,7 +318,7 @@ CHECK = PropertyCheck(
     whole_run_clauses=('evaluator_called_outside_an_evaluation', 'more_than_one_evaluator_call_per_evaluation', 'evaluator_rows_incomplete_or_mislabelled', 'evaluation_without_evaluator_call'),
     prop="C06", trace_module="Trace_C06", drive=drive, model_runs=model_runs, extra_scenarios=extra_scenarios,
     rule=("TLC explores the request machine (function cache) over every call sequence of length L (2 quick, 3 thorough) over "
-          "{F batch 1-2, G, FG} x 2 points, x ensemble shapes x weight vectors with zeros x filter configurations (none, sort, CVaR, "
+          "{F batch 1-2, G, FG} x 2 points, x ensemble shapes x weight vectors with zeros x filter configurations (none, sort, sort shared by an objective and the constraint, CVaR, "
           "constraint-only) x transforms x memoising evaluators (fresh / same arrays / same object); each sequence is replayed twice "
           "with different garbage in inactive entries. Non-trivial: a zero weight, a filter or a memoising evaluator."),
     assumptions=["the scripted evaluator returns a value that encodes (batch row, realization, perturbation, function), so "
